@@ -62,6 +62,16 @@ AcceptImpl(e) ==
     /\ Fits(ConvR(MinV(e.A), LF(e.A), LF(e.B)), e.B)
     /\ (e.tr = "From" => LF(e.B) >= LF(e.A))
 
+\* az::StaticCast between fixed types (growth G03): Some is a compile-time decision of the layout pair, so it must carry
+\* the converted value and may be given only where no source value can overflow the destination.  None is never a
+\* violation (the trait promises nothing then).
+AcceptStatic(e) ==
+  LET a == ZJ(e.a)  R == ConvR(a, LF(e.A), LF(e.B)) IN
+  \/ IsNone(e.o)
+  \/ /\ ValIs(e.o, R)
+     /\ Fits(ConvR(MaxV(e.A), LF(e.A), LF(e.B)), e.B)
+     /\ Fits(ConvR(MinV(e.A), LF(e.A), LF(e.B)), e.B)
+
 (* ------------------------------ C05 ------------------------------------ *)
 AcceptF2X(e) ==
   LET fl == FDec(ZJ(e.fb), e.ft)  L == e.B
@@ -173,6 +183,7 @@ Accept(e, P) ==
     [] e.k = "conv"  -> AcceptConv(e)
     [] e.k = "from"  -> AcceptFrom(e)
     [] e.k = "impl"  -> AcceptImpl(e)
+    [] e.k = "static" -> AcceptStatic(e)
     [] e.k = "f2x"   -> AcceptF2X(e)
     [] e.k = "x2f"   -> AcceptX2F(e)
     [] e.k = "codec" -> AcceptCodec(e)
@@ -196,5 +207,7 @@ Deviation(e, P) ==
              \* the plain form panics with overflow checks exactly where the as-coded design overflows
              /\ PairSlots(u.o, c.o, LAMBDA i : i = 1 /\ CodedPlainPanics(u.k, ZJ(u.a), b, u.L))
   THEN "div_euclid_as_coded"
+  ELSE IF P = "C15" /\ e.k = "math" /\ e.fn = "pow" /\ PowLnResolution(e)
+  THEN "pow_ln_resolution"
   ELSE ""
 =============================================================================
